@@ -34,7 +34,7 @@ Idx(h) == IdxFrom(h, 1, 0)
 ObsOf(h) == Tab[(c - 1) * (MaxLen + 1) + Len(h) + 1].o[Idx(h) + 1]
 Cfg == Cfgs[c]
 
-Eps == QPow10Neg(9)
+Eps == IF "eps" \in DOMAIN Scope THEN QFrac(Scope.eps[1], Scope.eps[2]) ELSE QPow10Neg(9)     \* 1e-4 for the f32 instantiation
 Comb(k) == [i \in 1..Len(hx) |-> Combos[k][1] * hx[i] + Combos[k][2] * hy[i]]
 
 SuperOK(k) ==
@@ -47,7 +47,7 @@ SuperOK(k) ==
         ELSE ox[1] = oy[1] /\ oy[1] = oz[1]        \* readiness does not depend on the values
 
 LowPass == {"Sma", "Ema", "Alma", "LaguerreFilter"}
-ConstOK == \/ Cfg.k \notin LowPass \/ Len(hx) = 0 \/ ~OIsSome(ObsOf(hx))
+ConstOK == \/ Cfg.k \notin LowPass \/ HasField(Cfg, "c") \/ Len(hx) = 0 \/ ~OIsSome(ObsOf(hx))      \* (a chain is not a "low-pass member")
            \/ \E i \in 1..Len(hx) : hx[i] # hx[1]
            \/ (Tally("constant") /\ QClose(OQ(ObsOf(hx)), QFrac(hx[1], Unit), QMul(QPow10Neg(11), QMax(QOne, QAbs(QFrac(hx[1], Unit))))))
 
